@@ -235,8 +235,14 @@ func judge(class string, key []byte, o *fw.Obs) {
 		}
 		// UnmarshalText must agree with ParsePath, also into a Path that already holds something and
 		// from a buffer the caller overwrites afterwards
-		for _, un := range []bip32path.Path{nil, {7, 8, 9, 1 << 31, 11, 12, 13}} {
+		// receivers: nil, a full one, and ones whose length is smaller than their capacity (a Path variable that
+		// held a longer path before and was cut, or was allocated ahead): the result must be the whole path
+		spareRecv := make(bip32path.Path, 1, 48)
+		spareRecv[0] = 77
+		emptyRecv := make(bip32path.Path, 0, 48)
+		for _, un := range []bip32path.Path{nil, {7, 8, 9, 1 << 31, 11, 12, 13}, spareRecv, emptyRecv, make(bip32path.Path, len(mp)/2, len(mp)+1)} {
 			buf := []byte(s)
+			recvLen, recvCap := len(un), cap(un)
 			if !o.Try("UnmarshalText", func() { err = un.UnmarshalText(buf) }) {
 				return
 			}
@@ -244,7 +250,7 @@ func judge(class string, key []byte, o *fw.Obs) {
 				buf[i] = '9'
 			}
 			if err != nil || !equal(un, mp) {
-				o.Fail("value", "UnmarshalText(%q) into a reused Path = %v, err=%v; expected %v", s, []uint32(un), err, mp)
+				o.Fail("value", "UnmarshalText(%q) into a reused Path (a receiver that had length %d and capacity %d before) = %v, err=%v; expected %v", s, recvLen, recvCap, []uint32(un), err, mp)
 				return
 			}
 		}
